@@ -773,6 +773,15 @@ def plant_all(decls):
                         m = copy.deepcopy(decls)
                         m[i]["vars"][j]["init"] = "%s#%s" % (others[0]["name"], others[0]["values"][0])
                         yield "P0014", "%s:%s:%s:value-of-other-enumeration" % (k, pos, blk), m, [others[0]["values"][0], others[0]["name"]]
+                if v["kind"] == "inline-enum":
+                    # an enumeration declared with the variable: a value listed twice, an initial value that is not listed
+                    vals_ = v["type"].strip("()").split(", ")
+                    m = copy.deepcopy(decls)
+                    m[i]["vars"][j]["type"] = "(%s)" % ", ".join(vals_ + [vals_[0]])
+                    yield "P0005", "%s:%s:inline-enumeration" % (k, pos), m, [vals_[0]]
+                    m = copy.deepcopy(decls)
+                    m[i]["vars"][j]["init"] = "NoSuchValue"
+                    yield "P0014", "%s:%s:inline-enumeration" % (k, pos), m, ["NoSuchValue"]
                 if v["kind"] == "array" and v["type"].startswith("ARRAY["):
                     m = copy.deepcopy(decls)
                     m[i]["vars"][j]["type"] = _re.sub(r"ARRAY\[(\d+)\.\.(\d+)\]", lambda mm: "ARRAY[%s..%s]" % (mm.group(2), mm.group(1)),
@@ -843,6 +852,25 @@ def plant_all(decls):
                                     l2[i2][2] = "(undeclaredVar + 1)"
                                 break
                         yield "P0015", "%s:%s:%s:%s" % (k, pos, nest, where), m, ["undeclaredVar"]
+                if s[0] == "assign" and not any(v["name"] == s[1] and v["kind"] == "enum" for v in d["vars"]):
+                    evs = [ev for x in decls if x["k"] == "enum" for ev in x["values"]]
+                    local = {v["name"].lower() for v in d["vars"]}
+                    evs = [ev for ev in evs if ev.lower() not in local]
+                    if evs:
+                        # a name that is declared - as a value of some enumeration type - but not as a variable
+                        m = copy.deepcopy(decls)
+                        for l2, i2, p2 in walk_stmts(m[i]["body"]):
+                            if p2 == path and l2[i2] == s:
+                                l2[i2][1] = evs[0]
+                                break
+                        yield "P0015", "%s:%s:%s:target-named-like-an-enumeration-value" % (k, pos, nest), m, [evs[0]]
+                if s[0] == "for":
+                    m = copy.deepcopy(decls)
+                    for l2, i2, p2 in walk_stmts(m[i]["body"]):
+                        if p2 == path and l2[i2] == s:
+                            l2[i2][1] = "undeclaredVar"
+                            break
+                    yield "P0015", "%s:%s:%s:for-control" % (k, pos, nest), m, ["undeclaredVar"]
                 if s[0] in ("if", "while"):
                     m = copy.deepcopy(decls)
                     for l2, i2, p2 in walk_stmts(m[i]["body"]):
@@ -861,6 +889,12 @@ def plant_all(decls):
                         ("P0008", [["pos", "1"]] * (len(ins) + 1)),
                         ("P0009", [["out", "noSuchOutput", d["body"] and first_target(d)]]),
                     ]
+                    plain_ins = [v_ for v_ in ins if v_["kind"] != "edge"]
+                    if plain_ins and len(plain_ins) == len(ins) and outs:
+                        # a wrong output name next to inputs that are right: passed by position (right count) and by name
+                        faults.append(("P0009", [["pos", "1"]] * len(ins) + [["out", "noSuchOutput", first_target(d)]]))
+                        faults.append(("P0009", [["in", v_["name"], "1"] for v_ in ins] + [["out", outs[0]["name"], first_target(d)],
+                                                                                        ["out", "noSuchOutput", first_target(d)]]))
                     # the same fault with the other shapes of an output target (the diagnostic prints the target)
                     arrs = [v for v in d["vars"] if v["kind"] == "array"]
                     for a_ in arrs[:1]:
